@@ -27,7 +27,7 @@ func (w c08Will) String() string {
 	return fmt.Sprintf("v%d willq%d ret%v delay%d props%v sessexp%d", w.version, w.qos, w.retain, w.delay, w.props, w.expiry)
 }
 
-var c08Endings = []string{"DISCONNECT(0x00)", "DISCONNECT(0x04)", "socket-close", "malformed-packet", "keepalive-timeout", "takeover(clean0)", "takeover(clean1)", "Client.Close()", "TerminateSession"}
+var c08Endings = []string{"DISCONNECT(0x00)", "DISCONNECT(0x04)", "socket-close", "malformed-packet", "keepalive-timeout", "takeover(clean0)", "takeover(clean1)", "Client.Close()", "TerminateSession", "invalid-DISCONNECT(0x00,session-expiry-30-after-CONNECT-with-expiry-0)"}
 var c08Follow = []string{"advance(4s)", "advance(6s)", "advance(21s)", "reconnect(clean0)", "reconnect(clean1)"}
 
 func c08Variants(quick bool) []c08Will {
@@ -162,6 +162,18 @@ func c08Run(c *explore.Ctx, wv c08Will, ending int, follow []int) {
 				break
 			}
 			x.Send(&refmqtt.Packet{Type: refmqtt.DISCONNECT, Code: 0x04})
+			vsched.Settle()
+			x.Close()
+			vsched.Settle()
+			endConnection(false)
+		case 9:
+			// MQTT 5 3.14.2.2.2: a non-zero Session Expiry Interval in DISCONNECT after a CONNECT
+			// with expiry 0 is a protocol error; such a DISCONNECT does not suppress the will
+			if wv.version != refmqtt.V5 || sessExp != 0 {
+				valid = false
+				break
+			}
+			x.Send(&refmqtt.Packet{Type: refmqtt.DISCONNECT, Props: &refmqtt.Props{SessionExpiry: harness.U32(30)}})
 			vsched.Settle()
 			x.Close()
 			vsched.Settle()
@@ -328,7 +340,7 @@ func c08Total(watch *harness.Client) int {
 
 func runC08(c *explore.Ctx) {
 	c.Level = "model_checking"
-	c.Rule = "E2 (virtual clock): every will setting (QoS, retain, delay absent/5s, properties, v3.1.1/v5, session expiry absent/3/10 or v3 clean/non-clean) x every way the connection ends (DISCONNECT 0x00, DISCONNECT 0x04, socket close, malformed packet, keep-alive timeout, take-over clean0/clean1, server-side Client.Close, TerminateSession) x every sequence of <=2 follow-ups (advance 4s/6s/21s, reconnect clean0/clean1) on a fresh in-process broker; a reference will machine (armed / due = end + min(delay, session expiry) / cancelled by re-attach / immediate when the session ends) predicts how many copies an independent Retain-As-Published subscriber has received after every step, and their content. E3: the end of the connection (close, DISCONNECT+close, pure take-over) races a CONNECT of the same client id (clean start 0/1), and the delayed-will timer races a re-attaching CONNECT, under every schedule with <=1 (quick) / <=2 (thorough) deviations: the number of copies is the schedule-independent expected one (timer race: at most one)."
+	c.Rule = "E2 (virtual clock): every will setting (QoS, retain, delay absent/5s, properties, v3.1.1/v5, session expiry absent/3/10 or v3 clean/non-clean) x every way the connection ends (DISCONNECT 0x00, DISCONNECT 0x04, socket close, malformed packet, keep-alive timeout, take-over clean0/clean1, server-side Client.Close, TerminateSession, a DISCONNECT that is itself a protocol error) x every sequence of <=2 follow-ups (advance 4s/6s/21s, reconnect clean0/clean1) on a fresh in-process broker; a reference will machine (armed / due = end + min(delay, session expiry) / cancelled by re-attach / immediate when the session ends) predicts how many copies an independent Retain-As-Published subscriber has received after every step, and their content. E3: the end of the connection (close, DISCONNECT+close, pure take-over) races a CONNECT of the same client id (clean start 0/1), and the delayed-will timer races a re-attaching CONNECT, under every schedule with <=1 (quick) / <=2 (thorough) deviations: the number of copies is the schedule-independent expected one (timer race: at most one)."
 	c.Trusted = []string{"vsched virtual clock and memconn deadlines", "refmqtt codec"}
 	c.Assumptions = []string{"a reconnect within 1s of the due instant is not judged", "Stop() as a way to end the connection is covered by C15, not here"}
 	if rc := replayCase(c); rc != nil {
